@@ -14,8 +14,11 @@ import time
 
 VERIF = os.path.dirname(os.path.dirname(os.path.abspath(__file__)))
 REPO = os.environ.get("VERIF_REPO", "/repo")
-COQ = os.path.join(VERIF, "coq")
-BUILD = os.path.join(VERIF, "build")
+# VERIF_COQ_DIR / VERIF_BUILD_DIR / VERIF_EVIDENCE_DIR: private copies for runs against ANOTHER tree (tools/seed_run.py), so that
+# regenerating Gen/ for a patched worktree never disturbs checks of /repo running at the same time, nor their evidence files
+COQ = os.environ.get("VERIF_COQ_DIR") or os.path.join(VERIF, "coq")
+BUILD = os.environ.get("VERIF_BUILD_DIR") or os.path.join(VERIF, "build")
+EVIDENCE = os.environ.get("VERIF_EVIDENCE_DIR") or os.path.join(VERIF, "evidence")
 PY = "/venv/bin/python"
 NPROC = 16
 
@@ -67,7 +70,7 @@ class Ctx:
         os.makedirs(self.rundir, exist_ok=True)
         import atexit, shutil
         atexit.register(lambda d=self.rundir: shutil.rmtree(d, ignore_errors=True))
-        os.makedirs(os.path.join(VERIF, "evidence"), exist_ok=True)
+        os.makedirs(EVIDENCE, exist_ok=True)
         os.makedirs(os.path.join(VERIF, "replays"), exist_ok=True)
         self.broken = []        # obligations / correspondences that no longer check: (name, detail)
         self.failures = []      # concrete failing inputs found on the implementation (Failure)
@@ -382,7 +385,7 @@ class Ctx:
         }
         ev = {"property_id": self.pid, "tier": self.tier, "seed": self.seed, "level": level, "coverage": cov,
               "assumptions": TRUSTED_BASE + self.notes, "wall_s": round(time.time() - self.t0, 2), "violations": nviol}
-        with open(os.path.join(VERIF, "evidence", self.pid + ".json"), "w") as f:
+        with open(os.path.join(EVIDENCE, self.pid + ".json"), "w") as f:
             json.dump(ev, f, indent=1, default=str)
 
 
